@@ -385,6 +385,22 @@ def units_rule(repo, res, rule="UNITS"):
             first = fn.params[0]["name"]
             ok = "location_line" in A.show(ln) and f"({first})" in A.show(ln) and "get_column" in A.show(cs) and f"({first})" in A.show(cs)
         res.check(ok, rule, f"{rule}:HumanSpan::{name}:start", "line and start column come from the first (earlier) position", fn.loc())
+        if len(ss) == 1:
+            # the end column is a COLUMN: every value it can take is a position's column, or a column plus a length -- a bare length
+            # (`line.len() + 1`) counts from the start of the construct, not of the line, and can lie before the start column
+            ce = A.resolve(P.ctor_field(ss[0], "column_end"), envs.get(id(ss[0])))
+            alts = ce[1] if ce[0] == "alt" else (ce,)
+
+            def has_col(t):
+                if isinstance(t, tuple):
+                    if t and t[0] == "mcall" and t[1] in ("get_column", "get_utf8_column", "naive_get_utf8_column"):
+                        return True
+                    if t and t[0] == "field" and t[2] in ("column_start", "column_end"):
+                        return True
+                    return any(has_col(x) for x in t)
+                return False
+            bad_alts = [A.show(t)[:70] for t in alts if not has_col(t)]
+            res.check(not bad_alts, rule, f"{rule}:HumanSpan::{name}:end-is-a-column", f"column_end takes {len(alts)} form(s), each built on a column" if not bad_alts else f"column_end can be {bad_alts}: no column in it -- a length taken for a column (the end may lie before the start)", fn.loc())
 
 
 def ends_rule(repo, res, rule="ENDS"):
